@@ -1882,8 +1882,8 @@ package mcp
 //@   ensures @every-nested-block-is-marshalled result.1 == nil ==> calls(nested) == old(len(c.Content))
 //@   loop 1: invariant @one-raw-block-per-nested-content len(local(contentWire)) == $idx && calls(nested) == $idx && local(contentWire) != nil
 
-// Server.Connect (C13): keep-alive is started, with the configured interval, exactly when one is configured, and
-// before the session is handed to the caller.
+// Server.Connect (C13): keep-alive is started, with the configured interval, exactly when one is configured (and the
+// connection can carry pings), and before the session is handed to the caller.
 //@ func (*Server).Connect [C13, C07]
 //@   track filterSupportedVersions as offered
 //@   ensures @offered-versions-are-computed-for-this-transport result.1 == nil ==> calls(offered) == 1 && callArg(offered, 1, 0) == t
@@ -1891,7 +1891,12 @@ package mcp
 //@   track (*ServerSession).startKeepalive as keepalive
 //@   requires s != nil
 //@   modifies *
-//@   ensures @keep-alive-started-iff-configured result.1 == nil ==> calls(keepalive) <= 1 && (calls(keepalive) == 1 <==> at(dialled, s.opts.KeepAlive) > 0)
+// (defect F29) ... and the connection can carry a ping at all: a stateless or session-less streamable connection
+// rejects every server-to-client request, so each ping would be counted as a miss although the peer was never asked,
+// and the session would be closed under a running handler ("a peer that answers is never closed by keep-alive").
+//@   track cannotMakeRequests as requestless
+//@   ensures @keep-alive-started-iff-configured-and-pings-can-be-sent result.1 == nil ==> calls(keepalive) <= 1 && (calls(keepalive) == 1 <==> at(dialled, s.opts.KeepAlive) > 0 && calls(requestless) == 1 && !callResult(requestless, 1, 0))
+//@   ensures @the-connection-asked-about-is-the-sessions calls(requestless) == 1 ==> callArg(requestless, 1, 0) == at(dialled, callResult(dial, 1, 0).mcpConn)
 //@   ensures @keep-alive-is-for-the-returned-session calls(keepalive) == 1 ==> callArg(keepalive, 1, 0) == result.0 && result.0 == callResult(dial, 1, 0)
 //@   ensures @failed-connect-starts-nothing result.1 != nil ==> calls(keepalive) == 0 && result.0 == nil
 //@   snapshot dialled after call filterSupportedVersions
@@ -2172,3 +2177,9 @@ package mcp
 //@   ensures @no-params-no-metadata params == nil ==> result == nil
 //@   ensures @every-per-request-key-is-looked-up calls(source) <= 3
 //@   loop 1: invariant @one-lookup-per-key-so-far calls(source) <= $idx && $idx <= 3
+
+// cannotMakeRequests: exactly the streamable server connections that are stateless or have no session id (the ones
+// whose Write rejects every server-to-client request).
+//@ func cannotMakeRequests [C13]
+//@   nopanic
+//@   ensures @exactly-the-requestless-streamable-connections result <==> (typeIs(conn, *streamableServerConn) && conn.(*streamableServerConn) != nil && (conn.(*streamableServerConn).stateless || conn.(*streamableServerConn).sessionID == ""))
